@@ -142,6 +142,16 @@ func H_C06() {
 		chain = append(chain, e)
 		prev = []cid.Cid{e.GetHash()}
 	}
+	// ---- the genuine entries have been seen and verified in this process before (another replica merged the
+	// honest log): whatever an implementation remembers about verified entries must not help a forged twin ----
+	if vx.Param("WARM", 1) == 1 {
+		honest := newLogOpt(api, ids[1], &ipfslog.LogOptions{ID: "X", IO: io, Entries: orderedMapOf(chain)})
+		witness := newLogOpt(api, ids[0], &ipfslog.LogOptions{ID: "X", IO: io})
+		witness.Join(honest, -1)
+		for _, e := range chain {
+			_ = e.Verify(ids[0].Provider, io)
+		}
+	}
 	// ---- the source as offered to the merge: one entry possibly replaced by an invalid twin ----
 	offered := append([]iface.IPFSLogEntry{}, chain...)
 	if bad < nB {
